@@ -93,6 +93,7 @@ inductive KeyRes
   | key (b : Option Bytes)     -- the routing key (`none`: a nil key from a nil single component)
   | errMarshal
   | errMeta
+  | errValues                  -- a key marker has no bound value (repaired code, KF-C09-1): an error, no panic
   | crash
   deriving DecidableEq
 
@@ -116,8 +117,8 @@ def compositeLoop {τ ν : Type} (enc : τ → ν → Enc) (vals : List ν) : Li
     | .err => .errMarshal
     | .crash => .crash
 
-/-- `createRoutingKey` for a non-nil info: one index ↦ the raw encoded value, otherwise composite -/
-def createRoutingKey {τ ν : Type} (enc : τ → ν → Enc) (info : Info τ) (vals : List ν) : KeyRes :=
+/-- the body of `createRoutingKey` behind its guard: one index ↦ the raw encoded value, otherwise composite -/
+def createRoutingKeyCore {τ ν : Type} (enc : τ → ν → Enc) (info : Info τ) (vals : List ν) : KeyRes :=
   match info.indexes, info.types with
   | [i], t :: _ =>
     match encAt enc vals t i with
@@ -126,6 +127,12 @@ def createRoutingKey {τ ν : Type} (enc : τ → ν → Enc) (info : Info τ) (
     | .crash => .crash
   | [_], [] => .crash
   | is, ts => compositeLoop enc vals is ts []
+
+/-- `createRoutingKey` for a non-nil info (repaired, props/C09.fix-KF-C09-1.diff): FIRST every partition-key marker index is
+    checked against the bound values - an index beyond them is an error, before anything is marshalled -, then the key -/
+def createRoutingKey {τ ν : Type} (enc : τ → ν → Enc) (info : Info τ) (vals : List ν) : KeyRes :=
+  if info.indexes.any (fun i => decide (vals.length ≤ i)) then .errValues
+  else createRoutingKeyCore enc info vals
 
 /-- `Query.GetRoutingKey` (no explicit key) / `Batch.GetRoutingKey` (first entry) -/
 def getRoutingKey {τ ν : Type} (enc : τ → ν → Enc) (m : Meta τ) (schema : Option (List String))
